@@ -30,6 +30,7 @@ EXPLANATION = (
     "complete, the worker pool is drained (blocking map) before the end-of-queue sentinel is sent, the degrees flag "
     "reaches chunk creation unchanged, and the three pipeline variants agree on how they construct the writer and "
     "split chunks. Bit-identity of stored values is NOT decided."
+    ' R6 also requires that the pieces returned by split_into_patches are used (handed to the writer / queue / writer rank); R7-R11 cover key/value pairing of the grouping, precedence of patch centres over an id column, partition of a chunk among workers, and option forwarding.'
 )
 ASSUMPTIONS = [
     "multiprocessing.Pool.map / starmap / apply return only after every task has finished; imap*/…_async do not",
